@@ -270,6 +270,17 @@ theorem lead_sheet_squash_together (R : Rat → Rat) (sp : String → Except Err
     obtain ⟨g1, g2, g3, _, _, _, g7⟩ := transpose_symbol_hom (c f) a
     exact ⟨g1, g2, g3, g7⟩
 
+/-- non-vacuity of `lead_sheet_squash_together`: a C-major fragment over C, D (a tone above: the figure the
+preceding chord becomes), N.C., squashed into `[48, 84)` in D (key 2): the amount is 2 for melody and chords -/
+example :
+    let sp : String → Except Err Sym := fun t =>
+      if t = "C" then .ok ⟨⟨.C, 0⟩, "", "", [], none⟩ else if t = "D" then .ok ⟨⟨.D, 0⟩, "", "", [], none⟩
+      else .error chordSymbolError
+    NOTES_PER_OCTAVE ≤ (84 : Int) - 48 ∧ (∀ e ∈ [-2, 60, 62, 64, -1], e ≤ MAX_MIDI_PITCH) ∧
+    lsSquashR rne53 sp 48 84 2 [-2, 60, 62, 64, -1] ["C", "D", "D", "N.C.", "C"] =
+      ([-2, 62, 64, 66, -1], 2, ["D", "E", "E", "N.C.", "D"], none) := by
+  decide +kernel
+
 /-! ## round trip `k` then `−k` on a whole progression -/
 
 /-- a re-assembled figure starts with a letter `A`..`G`, so it is never the `N.C.` marker -/
